@@ -117,13 +117,18 @@ func checkC27(c *Ctx, r *Report) {
 	}
 
 	r3 := r.Rule("R3", "E-GUARD", "removal of an entry / of a group happens only where, with the group's write lock held, the expiry was re-tested (entry: not Before(expiresAt); group: After(lastExpiresAt)); marking a group deleted goes together with removing it from the table", 2)
-	if ce := r.MustFunc(r3, "(*"+tLS+").cleanupExpiredPeerEntries"); ce != nil {
-		sets := locksets(ce, lockState{})
+	// every removal of an entry, wherever it is written (the cleanup pass, a helper
+	// of the group, a function literal): guard and lock may be established at the
+	// site or at every place the enclosing helper/closure is invoked from
+	for _, ce := range c.FuncsIn(pkgPeerstore) {
+		if c.isFixture(ce) {
+			continue
+		}
 		instrsOf(ce, func(in ssa.Instruction) {
 			if !isMapDeleteOn(in, tPG+".peerMap") {
 				return
 			}
-			expired := guardedBy(in, func(cond ssa.Value, val bool) int {
+			expired := guardedDeep(c, ce, in, func(cond ssa.Value, val bool) int {
 				cl, ok := cond.(*ssa.Call)
 				if !ok || !mentionsField(cl, tPE+".expiresAt") {
 					return 0
@@ -135,24 +140,21 @@ func checkC27(c *Ctx, r *Report) {
 					return tern(val, 1, -1)
 				}
 				return 0
-			})
-			held := false
-			for k, m := range sets[in] {
-				if k.mutex == "mu" && m >= 2 && k.rtype == tPG {
-					held = true
-				}
-			}
+			}, 0)
+			held := lockHeldDeep(c, ce, in, tPG, 0)
 			// the re-test itself must be under the write lock as well
 			r.Check(expired && held, r3, ce, "entry removal re-validated", in, "expiry re-tested under the write lock", "an announcement is removed without re-testing its expiry under the write lock: one renewed between the scan and the removal is forgotten while fresh")
 		})
 	}
-	if cg := r.MustFunc(r3, "(*"+tLS+").cleanupExpiredPeerGroups"); cg != nil {
-		sets := locksets(cg, lockState{})
+	for _, cg := range c.FuncsIn(pkgPeerstore) {
+		if c.isFixture(cg) {
+			continue
+		}
 		instrsOf(cg, func(in ssa.Instruction) {
 			if !isMapDeleteOn(in, tLS+".peerGroups") {
 				return
 			}
-			expired := guardedBy(in, func(cond ssa.Value, val bool) int {
+			expired := guardedDeep(c, cg, in, func(cond ssa.Value, val bool) int {
 				cl, ok := cond.(*ssa.Call)
 				if !ok || !mentionsField(cl, tPG+".lastExpiresAt") {
 					return 0
@@ -164,16 +166,8 @@ func checkC27(c *Ctx, r *Report) {
 					return tern(val, -1, 1)
 				}
 				return 0
-			})
-			gHeld, sHeld := false, false
-			for k, m := range sets[in] {
-				if k.mutex == "mu" && m >= 2 && k.rtype == tPG {
-					gHeld = true
-				}
-				if k.mutex == "mu" && m >= 2 && k.rtype == tLS {
-					sHeld = true
-				}
-			}
+			}, 0)
+			gHeld, sHeld := lockHeldDeep(c, cg, in, tPG, 0), lockHeldDeep(c, cg, in, tLS, 0)
 			marked := false
 			for _, st := range storesToField(cg, tPG+".deleted") {
 				if isBoolConst(st.Val, true) && st.Block() == in.Block() {
